@@ -3,7 +3,7 @@ from . import robustgen as R
 
 ID = "C02"
 LEVEL = "proof"
-LEAN_MODULES = ["DracoProps.C02", "DracoProps.C02Eb"]
+LEAN_MODULES = ["DracoProps.C02", "DracoProps.C02Eb", "DracoProps.C02Kd"]
 RULE = ("valid streams of every method (sequential, kd-tree, Edgebreaker standard / valence; real encoder on small "
         "generated geometries, random option sets, metadata) and the small .drc files of testdata (bitstream 1.1 .. 2.3); "
         "corruptions: truncations, per-offset byte patterns {00, ff, ^01, ^80, +1, -1}, 32-bit patterns {0, 1, 2^31-1, "
@@ -22,28 +22,30 @@ RULE = ("valid streams of every method (sequential, kd-tree, Edgebreaker standar
         'the Lean model), the corrupt-stream families of ebcases / kdcases / legacycases (accept / reject + '
         'geometry against the complete Lean decoder) and the regression streams of repaired findings (dcc9947, '
         'c9df685, 63027a3); the structure-aware bases include hand-built legacy 2.0-2.2 integer / float kd-tree '
-        'streams (harness op legacykd; no Lean model below 2.3: implementation only), sequential / kd-tree point '
+        'streams (harness op legacykd; decoded by the Lean model too since DracoModel/KdTreeLegacy.lean), sequential / kd-tree point '
         'clouds spliced into one stream with 2..3 attributes decoders, and valence-traversal Edgebreaker streams '
         'whose six per-context symbol counts are located by the model tag at:valence_context_count')
-THEOREM_BACKED = ('DracoProps.C02: decode_total; decode_returns_status (decodeGeometrySeq: geometry and status ok, or no '
-                  'geometry and an error status) and decode_returns_status_with (dispatcher with arbitrary disciplined body'
-                  ' decoders); decode_some_ok_valid; decode_consumes_prefix / consumed_le_length (remaining input is a '
-                  "suffix of the caller's bytes); unknown_major_rejected / unknown_minor_rejected (version gate of the "
-                  'dispatcher, any body decoders); fuel sufficiency: metadata_nesting_fuel_sufficient, '
-                  'symbol_table_fuel_sufficient, le_groups_fuel_sufficient, delta_decode_fuel_sufficient. DracoProps.C02Eb:'
-                  ' eb_disciplined (status discipline of the Edgebreaker body decoder, every input and bitstream version), '
-                  'decode_returns_status_eb, decode_seq_eb_some_ok_valid, depth_first_fuel_sufficient / '
-                  'max_prediction_degree_fuel_sufficient (the fuel exits of both traversers are unreachable for every '
-                  'corner table). For the complete decoder (all three bodies) purity is C18Eb.decode_consumes_prefix')
+THEOREM_BACKED = ('DracoProps.C02: decode_total; decode_returns_status (decodeGeometrySeq) and decode_returns_status_with '
+                  '(dispatcher with arbitrary disciplined body decoders); decode_some_ok_valid; decode_consumes_prefix / '
+                  'consumed_le_length; unknown_major_rejected / unknown_minor_rejected (version gate, any body decoders); '
+                  'fuel sufficiency: metadata_nesting_fuel_sufficient, symbol_table_fuel_sufficient, '
+                  'le_groups_fuel_sufficient, delta_decode_fuel_sufficient. DracoProps.C02Eb: eb_disciplined (Edgebreaker '
+                  'body, every input and version), decode_returns_status_eb, decode_seq_eb_some_ok_valid, '
+                  'depth_first_fuel_sufficient / max_prediction_degree_fuel_sufficient (the fuel exits of both traversers '
+                  'are unreachable). DracoProps.C02Kd: kd_disciplined (kd-tree body of every bitstream version incl. the '
+                  'legacy integer / float methods), decode_returns_status_all (status discipline of the COMPLETE decoder '
+                  'decodeGeometry, no hypothesis left), decode_some_ok_valid_all. Purity of the complete decoder: '
+                  'C18Eb.decode_consumes_prefix, C18Kd.kd_legacy_consumes_prefix')
 CORRESPONDENCE_ONLY = ('memory safety, absence of undefined behaviour and termination of the compiled C++ are observed '
                        '(ASan+UBSan, guard pages, watchdog) on the generated corruption campaign, not proved; not proved on the '
-                       'model either: status discipline of the kd-tree body decoder (a parameter of decode_returns_status_eb) '
-                       'and fuel adequacy of the loops that swing around a vertex (a fuel: / ub: outcome of the model is '
-                       'reported as a finding candidate)')
+                       'model either: fuel adequacy of the loops that swing around a vertex (needs an invariant of the '
+                       'connectivity symbol loop; a fuel: / ub: outcome of the model is reported as a finding candidate, none '
+                       'observed — also not in an exhaustive enumeration of 24.7 M small connectivity streams)')
 EXPLANATION = ('partial: Lean definitions are total and memory safe by construction, so the theorems state the logic '
-               'that remains (status discipline incl. the Edgebreaker body, version gate, purity, fuel sufficiency); the'
-               ' property itself is checked on the implementation by sanitizers over the campaign; the Lean decoder '
-               'model (all methods) is compared on the streams it decides')
+               'that remains (status discipline of the complete decoder — sequential, kd-tree of every version, '
+               'Edgebreaker —, version gate, purity, fuel sufficiency); the property itself is checked on the '
+               'implementation by sanitizers over the campaign; the Lean decoder model (all methods, all bitstream '
+               'versions) is compared on the streams it decides')
 ASSUMPTIONS = ["memory safety / UB-freedom of the C++ is established by observation under ASan+UBSan on the explored inputs only"]
 TRUSTED_EXTRA = ["harness/robust_main.cc (watchdog, allocation cap), harness/ops_robust.cc (guard-page mappings, entry point drivers)"]
 TIMEOUT = 3000
